@@ -29,6 +29,7 @@ EXPLANATION = (
     ' Round 7: (19) TAB: the pairing DEC_SPECIAL_CHARS / ALT_DEC_SPECIAL_CHARS (folded) equals the VT100 special graphics set for every alias letter ` .. ~ - the one table urwid cannot cross-check against itself; (20) SIB: every within_double_byte() call passes the caller\'s own start offset as line start; (21) BOUND: every text[o] read of the continuation-byte scans is guarded by the range limit (fix fad7df9).'
     ' Round 8: (18) extended: the byte count is a width under utf8 only behind a regex predicate that is exact - the pattern is parsed (re._parser): `$` admits a trailing newline, \\\\Z / fullmatch do not; (22) SIB: one width source - no unicodedata / direct wcwidth call outside get_char_width().'
     ' Round-8 triage: (23) GUARD: no comparison decided by its own shape (x == x - 4; fix 39d8430).'
+    " (24) TAB: the codec-name sets of set_encoding() are closed under the hyphen / underscore spellings and the canonical names of their members, evaluated through the function's own normalisation chain (fixes b2e4ecb, 7a0c255)."
 )
 NOT_DECIDED = "Additivity of widths, offset/column agreement, str-vs-bytes agreement for every code point, the padding flags of trimming, DEC special character mapping values - exhaustive value questions over code points."
 ASSUMPTIONS = ["Canonical codec spellings are taken from the analysing interpreter's codec registry (codecs.lookup(name).name)."]
@@ -768,6 +769,57 @@ def rule_fixed_comparisons(ctx: Ctx) -> RuleResult:
     return rr
 
 
+def rule_encoding_spellings(ctx: Ctx) -> RuleResult:
+    """'the three encoding modes': set_encoding() picks the byte mode by looking the name up in literal sets.  Codec
+    names have several spellings - Python's own module names use underscores (utf_8, euc_jp), locales and users
+    hyphens - and a spelling that falls through every set silently selects the *narrow* mode for a UTF-8 or a
+    double-byte encoding: offsets land inside characters, widths are byte counts.  The literal sets are closed under
+    spelling: for every literal that names a real codec, its underscore / hyphen variants and the codec's canonical
+    name, put through the same normalisation set_encoding() applies to its argument (the chain of str methods in
+    front of the tests), are members of the same set (the canonical name counts: cp949 next to its alias uhc, fix 7a0c255).  Before fix b2e4ecb set_encoding('utf_8') gave narrow mode."""
+    import codecs as _codecs
+
+    p = ctx.p
+    rr = RuleResult("TAB", "C11.24", "the codec-name sets of set_encoding() are closed under the hyphen / underscore spellings of their members (after the function's own normalisation)", floor=8)
+    fi = p.func("urwid.util.set_encoding")
+    prm = fi.params[0]
+    # the normalisation chain applied to names derived from the parameter: lower(), replace(a, b)
+    chains = {prm: []}
+    for n in fi.own_nodes():
+        if isinstance(n, ast.Assign) and len(n.targets) == 1 and isinstance(n.targets[0], ast.Name) and isinstance(n.value, ast.Call) and isinstance(n.value.func, ast.Attribute) and isinstance(n.value.func.value, ast.Name) and n.value.func.value.id in chains:
+            step = None
+            if n.value.func.attr == "lower" and not n.value.args:
+                step = ("lower",)
+            elif n.value.func.attr == "replace" and len(n.value.args) == 2 and all(isinstance(a, ast.Constant) for a in n.value.args):
+                step = ("replace", n.value.args[0].value, n.value.args[1].value)
+            if step:
+                chains[n.targets[0].id] = chains[n.value.func.value.id] + [step]
+        elif isinstance(n, ast.Assign) and len(n.targets) == 1 and isinstance(n.targets[0], ast.Name) and isinstance(n.value, ast.Name) and n.value.id in chains and n.targets[0].id not in chains:
+            chains[n.targets[0].id] = list(chains[n.value.id])  # a plain alias
+
+    def normalise(name, chain):
+        for st in chain:
+            name = name.lower() if st[0] == "lower" else name.replace(st[1], st[2])
+        return name
+
+    for t in [n for n in fi.own_nodes() if isinstance(n, ast.Compare) and isinstance(n.ops[0], ast.In) and isinstance(n.left, ast.Name) and n.left.id in chains and isinstance(n.comparators[0], (ast.Set, ast.Tuple, ast.List))]:
+        lits = {e.value for e in t.comparators[0].elts if isinstance(e, ast.Constant) and isinstance(e.value, str)}
+        chain = chains[t.left.id]
+        for lit in sorted(lits):
+            try:
+                canon = _codecs.lookup(lit).name
+            except LookupError:
+                continue
+            variants = {lit, lit.replace("-", "_"), lit.replace("_", "-"), canon, canon.replace("-", "_"), canon.replace("_", "-"), lit.upper()}
+            # the canonical name of an alias may be another family member; only spellings of *this* literal and of its
+            # canonical name are required
+            missing = sorted(v for v in variants if normalise(v, chain) not in lits and normalise(v, chain) not in {normalise(x, chain) for x in lits})
+            rr.inst(f"{lit}", True, {"literal": lit, "canonical": canon, "tested_name": t.left.id, "normalisation": chain, "missing_spellings": missing} if len(rr.samples) < 5 else None)
+            if missing:
+                rr.add(finding("TAB", fi, t, f"set_encoding() accepts {lit!r} for this byte mode but not the spelling(s) {missing} of the same codec (its argument is only put through {chain or 'nothing'} before the test): such a name falls through to the narrow mode although the encoding is multi-byte - offsets land inside characters", construct=f"spellings {missing} of {lit!r} not recognised"))
+    return rr
+
+
 def rule_one_width_source(ctx: Ctx) -> RuleResult:
     """'offset stepping, column search and width agree': they agree because every one of them takes a character's
     width from the same table, get_char_width() (get_width() for code points).  A second source - unicodedata's
@@ -947,6 +999,7 @@ def run(ctx: Ctx):
         rule_utf8_scan_range(ctx),
         rule_one_width_source(ctx),
         rule_fixed_comparisons(ctx),
+        rule_encoding_spellings(ctx),
         rule_memo_globals(ctx),
         rule_dbe_consulted(ctx),
         rule_one_decoder(ctx),
@@ -959,6 +1012,7 @@ def run(ctx: Ctx):
 _S = "urwid/str_util.py"
 _U = "urwid/util.py"
 MUTANTS = [
+    Mut("set-encoding-underscore-spelling-unknown", "urwid/util.py", "set_encoding", "    family = encoding.replace(\"_\", \"-\")\n", "    family = encoding\n", "TAB|util.set_encoding|spellings"),
     Mut("decode-one-right-bound-on-itself", "urwid/str_util.py", "decode_one_right", "if p == pos - 4:", "if p == p - 4:", "GUARD|str_util.decode_one_right|decode_one_right: comparison decided by its own shape"),
     Mut("prev-char-scan-unbounded", "urwid/str_util.py", "move_prev_char", "while o > start_offs and text[o] & 0xC0 == 0x80:", "while text[o] & 0xC0 == 0x80:", "BOUND|str_util.move_prev_char|utf8 scan read text[o] not limited by start_offs"),
     Mut("next-char-scan-unbounded", "urwid/str_util.py", "move_next_char", "while o < end_offs and text[o] & 0xC0 == 0x80:", "while text[o] & 0xC0 == 0x80:", "BOUND|str_util.move_next_char|utf8 scan read text[o] not limited by end_offs"),
